@@ -15,6 +15,14 @@ Three streams of cases, all from ctx.rng:
             trajectory of (u, w): the model's loop control (`ctrl`) run on that trajectory must give the implementation's
             training_iter / tolerance_reached and the returned parameters must be the trajectory state of that iteration
             divided by C() (theorem C15_fit_returns); update steps and whole short fits are replayed by the model.
+  session : ONE long-lived HyMMSBM object and a pool of hypergraphs on the same nodes (two with the same number of hyperedges,
+            one with another number, one on another number of nodes): construct -> queries -> fit(H_a) -> queries on H_a and on the
+            other inputs -> writes by the caller into the arrays it handed in / into the attributes / into a hypergraph ->
+            fit(H_b) -> queries -> ..; after EVERY step the property's clauses are evaluated with the object's CURRENT arrays
+            (Poisson parameter = pair sum, hyperedge sums, expected statistics = brute-force sums, supplied parameters stay,
+            finite, non-negative, symmetric/diagonal), the same step is made on a FRESH object holding the state before the step
+            (every answer, the arrays and the training attributes must agree), the Lean object model (`Obj`, `fitObj`, `poisObj`)
+            replays the session, returned arrays are overwritten by the harness and the questions repeated.
 Fixed cases replayed at the start of every run: the D28 witness (known finding) and the D46 regression cases (repaired defect:
 an update entry with a vanishing denominator was 0/0; ordinary cases, any non-finite parameter is a violation).
 """
@@ -39,7 +47,15 @@ RULE = ("closed/update cases: N in 2..7 nodes, K in 1..3, u entries k/8 (k<=16, 
         "temporary and re-inserted hyperedges); n_iter = 1..8 plus k*every, k*every+1, k*every+2 (k=1..3) and one of "
         "24/40/64 when a tolerance is set, all on the same data. Distinct = canonical text of the "
         "whole input; non-trivial = (closed/update) K >= 2, some hyperedge of size >= 3, at least two different rows of u, "
-        "(fit) the likelihood moved by more than 1e-9 between two consecutive n_iter")
+        "(fit) the likelihood moved by more than 1e-9 between two consecutive n_iter; session cases: one model object (which of u, w "
+        "supplied, priors, max_hye_size None / covering all / covering some of the pool, seed) x a pool of 3-5 hypergraphs on N in 3..6 "
+        "nodes (H0, H1 with the same number of hyperedges, one with another number, one equal in content to H0 but built by another "
+        "history, one on N+-1 nodes) x 8-16 steps from {query block on a pool entry, fit on a pool entry (n_iter 1..12, tolerance not "
+        "passed / None / 0 / float, check_convergence_every not passed / 0 / 1..5), write into the caller's u / w / prior arrays, rebind "
+        "obj.u / obj.w, replace a hyperedge of a pool hypergraph in place}; a query block follows every other step, the first fit is "
+        "followed by query blocks on the trained hypergraph, on the one with the same number of hyperedges, on the one with another "
+        "number and on the one with another number of nodes; non-trivial = (session) a fit that inferred something and a later query "
+        "block on another pool entry")
 ASSUMPTIONS = [
     "hyperedges have size >= 2 (size 1 has Poisson parameter 0 and makes the updates divide by zero): excluded from the generator",
     "N >= 3 for the per-node expected degree (the closed form divides by N-2); D <= N",
@@ -48,13 +64,18 @@ ASSUMPTIONS = [
     "array priors have positive entries (the initial draw uses 1/prior); priors are floats or arrays, not ints; seed is an int",
     "node labels are integers, all N nodes present; row i of u belongs to the i-th node in sorted label order",
     "hyperedge weights are positive",
+    "sessions: what one object promises is taken from the unchanged code - a parameter that is set (supplied, or left by an earlier fit, "
+    "returned or raised) is fixed for every later fit; the generator is drawn from in the first fit only, so a fresh object with the "
+    "same seed reproduces it; queries read u, w, max_hye_size at the time of the call (arrays handed to the constructor are stored by "
+    "reference: a write by the caller is a write to the object); fit on a hypergraph with another number of nodes only when nothing is "
+    "left to infer (it is a no-op then)",
 ]
 TRUSTED = [
     "binary64 evaluation of the float paths is compared with the exact rational model within 1e-9 (relative or absolute)",
     "numpy object-array arithmetic (@, *, +, -, /, sum, matmul, outer) applies the Fraction operators entrywise",
     "math.log / np.log for the likelihood oracle",
 ]
-BUDGET_S = {"quick": 55, "thorough": 800}
+BUDGET_S = {"quick": 55, "thorough": 880}
 if hasattr(sys, "set_int_max_str_digits"):
     sys.set_int_max_str_digits(0)
 TOL = 1e-9
@@ -526,6 +547,21 @@ def compare(ctx, drv, case, lines, expect):
                     p = a.split("|")
                     ok = (len(p) == 5 and int(p[0]) == Dm and mat_close(dec_mat(p[1]), uu, 1e-8) and mat_close(dec_mat(p[2]), ww, 1e-8)
                           and p[3] == str(it) and p[4] == str(int(reached)))
+            elif kind in ("ofit", "ostate"):
+                # the Lean object after a call of fit / at the end of a session against the implementation's attributes
+                returned, sn = val if kind == "ofit" else (None, val)
+                p = a.split("|")
+                if kind == "ofit":
+                    ok = p[0] == ("ret" if returned else "raise")
+                    p = p[1:]
+                ok = ok and len(p) == 6 and int(p[0]) == (-1 if sn["max_hye_size"] is None else sn["max_hye_size"])
+                for txt, arr in ((p[1], sn["u"]), (p[2], sn["w"])):
+                    ok = ok and ((txt == "none") == (arr is None)) and (arr is None or mat_close(dec_mat(txt), arr.tolist(), 1e-8))
+                if kind == "ofit" and returned:
+                    ok = ok and p[3] == "1" and sn["trained"] is True and p[4] == str(sn["training_iter"]) \
+                        and p[5] == str(int(bool(sn["tolerance_reached"])))
+                if not ok:
+                    val = {k: (v.tolist() if hasattr(v, "tolist") else v) for k, v in sn.items()}
         except Exception as e:  # noqa: BLE001
             ok = False
             a = f"{a[:80]} ({type(e).__name__})"
@@ -1175,6 +1211,853 @@ def gen_fit(rng):
 
 
 # -------------------------------------------------------------------------------------------------
+# stream 4: sessions on ONE long-lived model object
+#
+# What the object promises is read off the unchanged code (and written down in the Lean `Obj` / `fitObj`):
+#   * the state carried from call to call is u, w, max_hye_size, the priors and the training attributes - nothing else;
+#   * a query reads the CURRENT u, w, max_hye_size and its own argument;
+#   * fit treats every parameter that is set as fixed (supplied, or left by an earlier fit - also by one that raised after the
+#     initial draws were stored), so only the first fit draws from the generator and infers anything;
+#   * arrays handed to the constructor are stored by reference.
+# Hence the reference for every step: a FRESH object holding the state before the step (same seed), on which the same step is made.
+
+SNAP_ATTRS = ("K", "assortative", "max_hye_size", "trained", "training_iter", "tolerance_reached", "tolerance")
+
+
+def farr(x):
+    import numpy as np
+    return None if x is None else np.array(x, dtype=float)
+
+
+def snapshot(m):
+    """(copies of) the attributes a HyMMSBM instance carries from one call to the next"""
+    import numpy as np
+    sn = {a: getattr(m, a, "<missing>") for a in SNAP_ATTRS}
+    for a in ("assortative", "trained", "tolerance_reached"):
+        if isinstance(sn[a], (bool, np.bool_)):
+            sn[a] = bool(sn[a])
+    for a in ("K", "max_hye_size", "training_iter"):
+        if isinstance(sn[a], (int, np.integer)) and not isinstance(sn[a], bool):
+            sn[a] = int(sn[a])
+    sn["u"], sn["w"] = farr(getattr(m, "u", None)), farr(getattr(m, "w", None))
+    for name in ("u_prior", "w_prior"):
+        p = getattr(m, name, "<missing>")
+        sn[name] = farr(p) if isinstance(p, np.ndarray) else p
+    return sn
+
+
+def fresh_object(sn, seed):
+    """a new object that holds the parameters of the snapshot"""
+    import numpy as np
+    from hypergraphx.communities.hy_mmsbm.model import HyMMSBM
+
+    def cp(p):
+        return p.copy() if isinstance(p, np.ndarray) else p
+    ref = HyMMSBM(K=sn["K"], assortative=sn["assortative"], max_hye_size=sn["max_hye_size"],
+                  u_prior=cp(sn["u_prior"]), w_prior=cp(sn["w_prior"]), seed=seed)
+    ref.u = None if sn["u"] is None else sn["u"].copy()
+    ref.w = None if sn["w"] is None else sn["w"].copy()
+    return ref
+
+
+def plain(r):
+    """an answer as nested python lists / dicts of floats"""
+    import numpy as np
+    if isinstance(r, dict):
+        return {int(k): plain(v) for k, v in r.items()}
+    if isinstance(r, (tuple, list)):
+        return [plain(x) for x in r]
+    if isinstance(r, np.ndarray):
+        return np.asarray(r, dtype=float).tolist()
+    if isinstance(r, (bool, np.bool_)):
+        return bool(r)
+    if isinstance(r, (np.generic, int, float)):
+        return float(r)
+    return r
+
+
+def same_obj(x, y):
+    """two answers of the same code on equal parameters: equal up to the last bits"""
+    import numpy as np
+    if isinstance(x, dict) or isinstance(y, dict):
+        return isinstance(x, dict) and isinstance(y, dict) and sorted(x) == sorted(y) and all(same_obj(x[k], y[k]) for k in x)
+    if x is None or y is None or isinstance(x, (str, bool)) or isinstance(y, (str, bool)):
+        return type(x) is type(y) and x == y
+    try:
+        xa, ya = np.asarray(x, dtype=float), np.asarray(y, dtype=float)
+    except (TypeError, ValueError):      # ragged / mixed: element by element
+        return isinstance(x, list) and isinstance(y, list) and len(x) == len(y) and all(same_obj(a, b) for a, b in zip(x, y))
+    if xa.shape != ya.shape:
+        return False
+    if xa.size == 0:
+        return True
+    with np.errstate(all="ignore"):
+        fx, fy = np.isfinite(xa), np.isfinite(ya)
+        scale = max(1.0, float(np.max(np.abs(np.where(fx, xa, 0.0)))), float(np.max(np.abs(np.where(fy, ya, 0.0)))))
+        ok = (xa == ya) | (np.isnan(xa) & np.isnan(ya)) | (fx & fy & (np.abs(xa - ya) <= 1e-12 * scale + 1e-12 * np.abs(ya)))
+    return bool(np.all(ok))
+
+
+def same_ans(a, b):
+    if a[0] != b[0]:
+        return False
+    if a[0] == "exc":
+        return a[1].split(":")[0] == b[1].split(":")[0]
+    return same_obj(a[1], b[1])
+
+
+def snap_diff(a, b, names=None):
+    """names of the state components in which two snapshots differ"""
+    out = []
+    for k in (names or list(SNAP_ATTRS) + ["u", "w", "u_prior", "w_prior"]):
+        x, y = a.get(k), b.get(k)
+        if not same_obj(plain(x), plain(y)):
+            out.append(k)
+    return out
+
+
+def pool_entry(N, ent):
+    """the live Hypergraph of a pool entry, its incidence matrix (sparse / dense), hyperedges as index lists, weights"""
+    st, r = guarded(lambda: build_hypergraph(ent["N"], [tuple(e) for e in ent["edges"]], ent["weights"], ent.get("hist")))
+    if st != "ok":
+        return None, f"Hypergraph raised {r}"
+    live = {"h": r, "N": ent["N"], "edges": [tuple(e) for e in ent["edges"]],
+            "weights": None if ent["weights"] is None else list(ent["weights"]),
+            "labels": ent["hist"]["labels"] if ent.get("hist") else list(range(ent["N"]))}
+    return live, refresh_entry(live)
+
+
+def refresh_entry(live):
+    """recompute the incidence matrix of a pool entry after its hypergraph was built / edited; returns a complaint or None"""
+    st, r = guarded(lambda: incidence_and_weights(live["h"], live["N"]))
+    if st != "ok":
+        live["B"] = None
+        return f"binary_incidence_matrix raised {r}"
+    live["B"], live["Bd"], live["cols"], live["hw"] = r
+    live["Bd"] = live["Bd"].astype(float)
+    if live["Bd"].shape != (live["N"], len(live["edges"])):
+        return f"binary_incidence_matrix: shape {live['Bd'].shape} for {live['N']} nodes and {len(live['edges'])} hyperedges"
+    return data_mismatch(live["cols"], live["hw"], live["edges"], live["weights"])
+
+
+def entry_untouched(live):
+    """the hypergraph of a pool entry still holds the hyperedges / weights it was built with (cheap; no incidence matrix)"""
+    st, r = guarded(lambda: (sorted(tuple(sorted(e)) for e in live["h"].get_edges()), sorted(float(x) for x in live["h"].get_weights()),
+                             live["h"].num_nodes()))
+    if st != "ok":
+        return f"get_edges / get_weights raised {r}"
+    L = live["labels"]
+    want = (sorted(tuple(sorted(L[i] for i in e)) for e in live["edges"]),
+            sorted(float(1 if live["weights"] is None else x) for x in (live["weights"] or [1] * len(live["edges"]))), live["N"])
+    return None if r == want else f"the hypergraph now holds {r}, it was built with {want}"
+
+
+def session_dsets(case, D):
+    """(tag, maker of a fresh `d` argument, list of sizes) for the closed forms"""
+    import numpy as np
+    out = []
+    if D is not None:
+        out.append(("all", lambda: "all", list(range(2, D + 1))))
+    d1 = case["d_single"]
+    out.append(("single", lambda: d1, [d1]))
+    sub = list(case["d_subset"])
+    out.append(("subset", lambda: np.array(sub), sub))
+    return out
+
+
+def query_block(obj, live, case, light=False):
+    """every query of the property's anchors with one pool entry as argument (`light`: without log_likelihood, which returns
+    a float and rebuilds the incidence matrix).
+    Returns {name: ('ok', plain value) | ('exc', text)} and the raw returned objects (to be overwritten afterwards)"""
+    import numpy as np
+    ans, raw = {}, {}
+
+    def g(name, f):
+        st, r = guarded(f, seconds=10)
+        ans[name] = (st, plain(r) if st == "ok" else r)
+        if st == "ok":
+            raw[name] = r
+    D = getattr(obj, "max_hye_size", None)
+    Bc = live["Bd"].copy()
+    g("pp_sparse", lambda: obj.poisson_params(live["B"]))
+    g("pp_dense", lambda: obj.poisson_params(Bc, return_edge_sum=True))
+    # the same incidence matrix in other forms the signature admits (integer / Fortran-ordered dense array, CSC sparse; not COO:
+    # with SciPy 1.18 `coo_array(B).T @ vector` of a one-column matrix is a 0-d value and the code's shape assertion fires)
+    forms = {"int": live["Bd"].astype(np.int64), "fortran": np.asfortranarray(live["Bd"]), "csc": live["B"].tocsc()}
+    if not light:
+        for fname, Bf in forms.items():
+            g("pp_" + fname, lambda: obj.poisson_params(Bf))
+    ans["arg_untouched"] = ("ok", bool(np.array_equal(Bc, live["Bd"]) and (live["B"] != forms["csc"]).nnz == 0
+                                       and np.array_equal(forms["int"], live["Bd"]) and np.array_equal(forms["fortran"], live["Bd"])))
+    if not light:
+        g("loglik", lambda: obj.log_likelihood(live["h"]))
+    for tag, mk, ds in session_dsets(case, D if isinstance(D, (int, np.integer)) else None):
+        darg = mk()      # one `d` object for the calls of this size set: it must come back as it went in
+        g("deg_node:" + tag, lambda: obj.expected_degree(per_node=True, d=darg))
+        g("deg_avg:" + tag, lambda: obj.expected_degree(per_node=False, d=darg))
+        g("consts:" + tag, lambda: [obj.C(darg), obj.C(darg, return_summands=True), obj._C_prime(darg), obj._C_second(darg)])
+        if isinstance(darg, np.ndarray) and not np.array_equal(darg, np.array(ds)):
+            ans["arg_untouched"] = ("ok", False)
+    g("deg_avg:default", lambda: obj.expected_degree())
+    for dy in (True, False):
+        g("dimseq:%d" % dy, lambda: obj.dimension_sequence(include_dyadic=dy, expected=True))
+        g("degseq:%d" % dy, lambda: obj.degree_sequence(include_dyadic=dy, expected=True))
+    return ans, raw
+
+
+def scribble(x):
+    """overwrite a returned object in place"""
+    import numpy as np
+    if isinstance(x, np.ndarray):
+        if x.flags.writeable and x.size:
+            x[...] = -7.0
+    elif isinstance(x, dict):
+        for k in list(x):
+            x[k] = -7.0
+        x[-1] = -7.0
+    elif isinstance(x, (list, tuple)):
+        for t in x:
+            scribble(t)
+
+
+def lam_float(G, e):
+    e = sorted(e)
+    return math.fsum(float(G[i, j]) for x, i in enumerate(e) for j in e[x + 1:])
+
+
+def block_oracle(sn, live, ans, case, where):
+    """the property's clauses for one query block, from the definitions, with the CURRENT arrays of the object"""
+    import numpy as np
+    bad = []
+    u, w, D = sn["u"], sn["w"], sn["max_hye_size"]
+    if u is None or w is None or live["N"] != u.shape[0] or not (np.all(np.isfinite(u)) and np.all(np.isfinite(w))):
+        return bad
+    N, K = u.shape
+    G = u @ w @ u.T
+    cols = live["cols"]
+    want = [lam_float(G, e) for e in cols]
+    for name in ("pp_sparse", "pp_dense", "pp_int", "pp_fortran", "pp_csc"):
+        if name not in ans:
+            continue
+        st, r = ans[name]
+        if st != "ok":
+            bad.append(f"{where}: poisson_params ({name[3:]} incidence matrix, {len(cols)} hyperedges on {live['N']} nodes) raised {r}")
+            continue
+        pp = r[0] if name == "pp_dense" else r
+        if len(pp) != len(want) or not all(close(x, y) for x, y in zip(pp, want)):
+            bad.append(f"{where}: poisson_params ({name[3:]}) = {pp} but the sums over the node pairs of u_i^T w u_j are {want} "
+                       f"(hyperedges {cols}, current u = {u.tolist()}, w = {w.tolist()})")
+        if name == "pp_dense":
+            want_es = [[math.fsum(float(u[i][a]) for i in e) for a in range(K)] for e in cols]
+            if not mat_close(r[1], want_es):
+                bad.append(f"{where}: the hyperedge sums returned by poisson_params = {r[1]} but sum_(i in e) u_i = {want_es}")
+    if not isinstance(D, int) or D > N or D < 2:
+        return bad
+    lam_all = {d: {e: lam_float(G, e) for e in all_edges(N, d)} for d in range(2, N + 1)}
+    for tag, _, ds in session_dsets(case, D):
+        want_node = [math.fsum(l / float(kappa(N, d)) for d in ds for e, l in lam_all[d].items() if i in e) for i in range(N)]
+        want_avg = math.fsum(want_node) / N
+        st, r = ans["deg_node:" + tag]
+        if st != "ok":
+            bad.append(f"{where}: expected_degree(per_node=True, d={ds}) raised {r}")
+        elif len(r) != N or not all(close(x, y) for x, y in zip(r, want_node)):
+            bad.append(f"{where}: expected_degree(per_node=True, d={ds}) = {r} but the sums over all hyperedges of lambda_e/kappa_e "
+                       f"are {want_node} (current u = {u.tolist()}, w = {w.tolist()})")
+        st, r = ans["deg_avg:" + tag]
+        if st != "ok":
+            bad.append(f"{where}: expected_degree(d={ds}) raised {r}")
+        elif not close(r, want_avg):
+            bad.append(f"{where}: expected_degree(d={ds}) = {r} but the average over the nodes is {want_avg}")
+    for dy in (True, False):
+        ds = list(range(2 if dy else 3, D + 1))
+        st, r = ans["dimseq:%d" % dy]
+        want_dim = {d: math.fsum(lam_all[d].values()) / float(kappa(N, d)) for d in ds}
+        if st != "ok":
+            bad.append(f"{where}: dimension_sequence(expected=True, include_dyadic={dy}) raised {r}")
+        elif any(k not in ds for k in r) or not all(close(r.get(d, 0.0), want_dim[d]) for d in ds):
+            bad.append(f"{where}: dimension_sequence(expected=True, include_dyadic={dy}) = {r} but the expected counts "
+                       f"sum_e lambda_e/kappa_d are {want_dim}")
+        st, r = ans["degseq:%d" % dy]
+        want_deg = [math.fsum(l / float(kappa(N, d)) for d in ds for e, l in lam_all[d].items() if i in e) for i in range(N)]
+        if st != "ok":
+            bad.append(f"{where}: degree_sequence(expected=True, include_dyadic={dy}) raised {r}")
+        elif len(r) != N or not all(close(x, y) for x, y in zip(r, want_deg)):
+            bad.append(f"{where}: degree_sequence(expected=True, include_dyadic={dy}) = {r} differs from the summed lambda_e/kappa_e {want_deg}")
+    return bad
+
+
+def loglik_by_its_docstring(sn, live, pp):
+    """-sum_(i<j) u_i^T w u_j + sum_e A_e log lambda_e (what HyMMSBM.log_likelihood documents), with the Poisson parameters
+    `pp` that the object itself reported for this input (they are compared with the pair sums separately; taking the logarithm
+    of independently computed ones would amplify the rounding of a nearly vanishing parameter), or None"""
+    import numpy as np
+    u, w = sn["u"], sn["w"]
+    if u is None or w is None or live["N"] != u.shape[0] or len(pp) != len(live["hw"]):
+        return None
+    if any(not (l > 1e-300) for l in pp):
+        return None
+    G = u @ w @ u.T
+    pairs = math.fsum(float(G[i, j]) for i in range(len(G)) for j in range(i + 1, len(G)))
+    return -pairs + math.fsum(float(a) * math.log(l) for a, l in zip(live["hw"], pp))
+
+
+def model_block_lines(sn, live, ans, case):
+    """the query block for the Lean object model: Poisson parameters / hyperedge sums through `poisObj` / `edgeSumObj` on the
+    object's state, the closed forms through `osync` + the stateless commands"""
+    lines, expect = [], []
+    if live["N"] != (sn["u"].shape[0] if sn["u"] is not None else live["N"]):
+        return lines, expect
+    lines.append("data " + hgxv.enc_lists(live["cols"]) + " " + hgxv.enc_list([F(x) for x in live["hw"]]))
+    expect.append(("ok", None))
+    uninit = sn["u"] is None or sn["w"] is None
+    st, r = ans["pp_dense"]
+    if uninit:
+        lines.append("opois")
+        expect.append(("raw", "uninit" if st == "exc" else "the implementation returned"))
+        return lines, expect
+    if st == "ok":
+        lines += ["opois", "oesum"]
+        expect += [("tol", [F(x) for x in r[0]]), ("toll", r[1])]
+    lines.append("osync")
+    expect.append(("ok", None))
+    D, N = sn["max_hye_size"], sn["u"].shape[0]
+    if isinstance(D, int) and 2 <= D <= N:
+        for tag, _, ds in session_dsets(case, D):
+            st, r = ans["deg_node:" + tag]
+            if st == "ok":
+                lines.append("expdeg " + hgxv.enc_list(ds))
+                expect.append(("tol", [F(x) for x in r]))
+            st, r = ans["deg_avg:" + tag]
+            if st == "ok":
+                lines.append("expavg " + hgxv.enc_list(ds))
+                expect.append(("tol", [F(r)]))
+        for dy in (True, False):
+            st, r = ans["dimseq:%d" % dy]
+            if st == "ok":
+                lines.append("dimseq " + hgxv.enc_list(list(range(2 if dy else 3, D + 1))))
+                expect.append(("dimseq", r))
+    return lines, expect
+
+
+def enc_opt(x):
+    return "none" if x is None else enc_mat(x.tolist())
+
+
+def show_step(step):
+    return "%s%s" % (step[0], tuple(hgxv.jsonable(x) for x in step[1:]))
+
+
+def check_session(ctx, drv, case):
+    import numpy as np
+    from hypergraphx.communities.hy_mmsbm.model import HyMMSBM
+    N, K, seed = case["N"], case["K"], case["seed"]
+    bad, differ = [], []
+    key = repr(("session", sorted(case.items(), key=lambda kv: kv[0]).__repr__()))
+
+    def done(nontrivial=False):
+        ctx.case(key, nontrivial, sample=case)
+        for what in bad[:4]:
+            ctx.violation(case, what)
+        for what in differ[:4]:
+            ctx.disagree(case, what)
+
+    # ---- the pool of hypergraphs
+    pool = []
+    for j, ent in enumerate(case["pool"]):
+        live, complaint = pool_entry(N, ent)
+        if live is None or complaint:
+            bad.append(f"pool hypergraph {j}: {complaint}")
+            return done()
+        pool.append(live)
+    # ---- the object; the harness keeps the arrays it hands in
+    mk = lambda M: None if M is None else np.array([[float(F(x)) for x in r] for r in M])
+    hand = {"u": mk(case["u"]), "w": mk(case["w"]), "u_prior": conv_prior(case["u_prior"]), "w_prior": conv_prior(case["w_prior"])}
+    kw = {}
+    if case.get("pass_K", True) or (hand["u"] is None and hand["w"] is None):
+        kw["K"] = K
+    if case.get("pass_assortative", True) or hand["w"] is None:
+        kw["assortative"] = case["assortative"]
+    st, m = guarded(lambda: HyMMSBM(u=hand["u"], w=hand["w"], max_hye_size=case["max_hye_size"], u_prior=hand["u_prior"],
+                                    w_prior=hand["w_prior"], seed=seed, **kw))
+    if st != "ok":
+        bad.append(f"HyMMSBM(..) raised {m}")
+        return done()
+    sn = snapshot(m)
+    want_assort = bool(case["assortative"])
+    if "assortative" not in kw:      # inferred from the supplied w: diagonal or not
+        want_assort = all(F(case["w"][a][b]) == 0 for a in range(K) for b in range(K) if a != b)
+    if sn["K"] != K or sn["assortative"] != want_assort:
+        bad.append(f"constructed with K / assortative = {K} / {want_assort}, the object says {sn['K']} / {sn['assortative']}")
+        return done()
+    # what the supplied arrays must contain (the harness's own writes are applied to these copies as well)
+    supplied = {k: (None if hand[k] is None else hand[k].copy()) for k in ("u", "w")}
+    use_model = drv is not None
+    if use_model:
+        compare(ctx, drv, case, ["onew %s %s %d" % (enc_opt(sn["u"]), enc_opt(sn["w"]), -1 if sn["max_hye_size"] is None else sn["max_hye_size"])],
+                [("ok", None)])
+    inferred_something = False
+    foreign_query_after_fit = False
+    last_fit_entry = None
+    draws_used = False
+    for idx, step in enumerate(case["steps"]):
+        if bad or differ:
+            break
+        op = step[0]
+        where = f"step {idx} {show_step(step)}"
+        pre = snapshot(m)
+        if "<missing>" in [pre[a] for a in SNAP_ATTRS]:
+            bad.append(f"{where}: the object lost an attribute: { {a: pre[a] for a in SNAP_ATTRS} }")
+            break
+        # ================================================================================ query block
+        if op == "q":
+            live = pool[step[1]]
+            ans, raw = query_block(m, live, case)
+            post = snapshot(m)
+            st, ref = guarded(lambda: fresh_object(pre, seed))
+            if st != "ok":
+                differ.append(f"{where}: a fresh object with the current parameters could not be made: {ref}")
+                break
+            ref_ans, _ = query_block(ref, live, case)
+            # (1) the definitions, with the current arrays
+            bad += block_oracle(pre, live, ans, case, where)
+            # (2) a fresh object holding the same parameters answers the same
+            for name in ans:
+                if not same_ans(ans[name], ref_ans[name]):
+                    differ.append(f"{where}: {name} on the long-lived object = {str(ans[name])[:300]}, on a fresh object with the same "
+                                  f"u, w, max_hye_size = {str(ref_ans[name])[:300]} (history: {[show_step(s) for s in case['steps'][:idx]]})")
+                    break
+            if ans["arg_untouched"] != ("ok", True):
+                bad.append(f"{where}: a query wrote into the incidence matrix / the array of sizes it was given")
+            want_ll = loglik_by_its_docstring(pre, live, ans["pp_sparse"][1]) if ans["pp_sparse"][0] == "ok" else None
+            if want_ll is not None and ans["loglik"][0] == "ok" and not close(ans["loglik"][1], want_ll):
+                differ.append(f"{where}: log_likelihood = {ans['loglik'][1]!r}, but -sum_(i<j) u_i^T w u_j + sum_e A_e log(lambda_e) with the "
+                              f"Poisson parameters the object reports for the same hypergraph = {want_ll!r}")
+            changed = snap_diff(pre, post)
+            if changed:
+                differ.append(f"{where}: the queries changed the object's {changed}")
+            complaint = entry_untouched(live)
+            if complaint:
+                bad.append(f"{where}: after the queries, pool hypergraph {step[1]}: {complaint}")
+            # (3) the Lean object model
+            if use_model and not (bad or differ):
+                compare(ctx, drv, {**case, "at": where}, *model_block_lines(pre, live, ans, case))
+                ctx.count("session_query_blocks_replayed_by_model")
+            # (4) overwrite what was returned, ask again
+            for r in raw.values():
+                scribble(r)
+            again, raw2 = query_block(m, live, case, light=True)
+            for name in again:
+                if not same_ans(ans[name], again[name]):
+                    bad.append(f"{where}: {name} = {str(again[name])[:300]} after the caller overwrote the arrays returned by the previous "
+                               f"queries; it was {str(ans[name])[:300]} (the parameters did not change)")
+                    break
+            for r in raw2.values():
+                scribble(r)
+            ctx.count("session_query_blocks")
+            if live["N"] != N:
+                ctx.count("session_query_blocks_other_number_of_nodes")
+            if last_fit_entry is not None and step[1] != last_fit_entry:
+                ctx.count("session_query_blocks_on_another_input_than_the_last_fit")
+                if inferred_something and live["N"] == N:
+                    foreign_query_after_fit = True
+            continue
+        # ================================================================================ fit
+        if op == "fit":
+            _, j, n, tol, every = step
+            live = pool[j]
+            both_set = pre["u"] is not None and pre["w"] is not None
+            if live["N"] != N and not both_set:
+                ctx.count("session_steps_skipped")
+                continue
+            tol_eff = None if tol == "default" else tol
+            ev_eff = 10 if every == "default" else every
+            fkw = {}
+            if tol != "default":
+                fkw["tolerance"] = tol
+            if every != "default":
+                fkw["check_convergence_every"] = every
+            Dtrue = max(len(e) for e in live["edges"])
+            expect_rej = pre["max_hye_size"] is not None and pre["max_hye_size"] < Dtrue
+            expect_zde = (not expect_rej) and tol_eff is not None and ev_eff == 0
+            tag = f"{where} [fit(pool[{j}], n_iter={n}, tolerance={tol}, check_convergence_every={every})]"
+            st, r = guarded(lambda: m.fit(live["h"], n_iter=n, **fkw), seconds=30)
+            post = snapshot(m)
+            # ---- reference: the same call on a fresh object holding the state before the call (same seed: the first fit draws)
+            st2, ref = guarded(lambda: fresh_object(pre, seed))
+            if st2 != "ok":
+                differ.append(f"{where}: a fresh object with the current parameters could not be made: {ref}")
+                break
+            st2, r2 = guarded(lambda: ref.fit(live["h"], n_iter=n, **fkw), seconds=30)
+            ref_post = snapshot(ref)
+            # ---- the property's clauses
+            if st != "ok":
+                if expect_rej and r.startswith("ValueError"):
+                    ctx.count("session_fits_rejected_max_hye_size")
+                elif expect_zde and r.startswith("ZeroDivisionError"):
+                    ctx.count("session_fits_rejected_check_every_0")
+                else:
+                    bad.append(f"{tag} raised {r}")
+            elif expect_rej:
+                bad.append(f"{tag} accepted a hypergraph with a hyperedge of size {Dtrue} > max_hye_size={pre['max_hye_size']} "
+                           "(the data is impossible under the model; the code announces a ValueError)")
+            elif expect_zde:
+                differ.append(f"{tag} returned; the model says `it % 0` raises")
+            for name in ("u", "w"):
+                if supplied[name] is not None:
+                    now = post[name]
+                    if now is None or now.shape != supplied[name].shape or not np.array_equal(now, supplied[name]) or \
+                            not np.array_equal(hand[name], supplied[name]):
+                        bad.append(f"{tag} changed the supplied {name}: it was {supplied[name].tolist()}, the object holds "
+                                   f"{None if now is None else now.tolist()}, the caller's array {hand[name].tolist()}")
+                elif pre[name] is not None and (post[name] is None or not np.array_equal(post[name], pre[name])):
+                    differ.append(f"{tag} changed {name}, which an earlier call of fit had left set (the model: a parameter that is "
+                                  f"set is fixed): {pre[name].tolist()} -> {None if post[name] is None else post[name].tolist()}")
+            if case["max_hye_size"] is not None and post["max_hye_size"] != case["max_hye_size"]:
+                bad.append(f"{tag} changed the supplied max_hye_size {case['max_hye_size']} to {post['max_hye_size']}")
+            for name in ("u_prior", "w_prior", "K", "assortative"):
+                if not same_obj(plain(pre[name]), plain(post[name])) or type(pre[name]) is not type(post[name]):
+                    bad.append(f"{tag} changed {name}")
+            if st == "ok" and not (expect_rej or expect_zde):
+                uu, ww = post["u"], post["w"]
+                if uu is None or ww is None or uu.shape != (live["N"] if pre["u"] is None else pre["u"].shape[0], K) or ww.shape != (K, K):
+                    bad.append(f"{tag}: shapes after fit: u {None if uu is None else uu.shape}, w {None if ww is None else ww.shape}")
+                elif not (np.all(np.isfinite(uu)) and np.all(np.isfinite(ww))):
+                    bad.append(f"{tag} produced a non-finite parameter")
+                else:
+                    scale = max(1.0, float(np.max(np.abs(ww))), float(np.max(np.abs(uu))))
+                    if np.min(uu) < -TOL * scale or np.min(ww) < -TOL * scale:
+                        bad.append(f"{tag} produced a negative parameter (min u {np.min(uu)}, min w {np.min(ww)})")
+                    if np.max(np.abs(ww - ww.T)) > TOL * scale:
+                        bad.append(f"{tag}: w is not symmetric: {ww.tolist()}")
+                    if want_assort and np.any(ww - np.diag(np.diag(ww)) != 0):
+                        bad.append(f"{tag} with assortative=True: w is not diagonal: {ww.tolist()}")
+                Dm = post["max_hye_size"]
+                if not isinstance(Dm, int) or Dm < Dtrue:
+                    bad.append(f"{tag}: max_hye_size = {Dm} afterwards but the data has a hyperedge of size {Dtrue}")
+                elif pre["max_hye_size"] is None and Dm != Dtrue:
+                    bad.append(f"{tag}: inferred max_hye_size = {Dm}, the largest hyperedge has size {Dtrue}")
+                elif pre["max_hye_size"] is not None and Dm != pre["max_hye_size"]:
+                    differ.append(f"{tag} changed max_hye_size {pre['max_hye_size']} -> {Dm}, which was set before the call")
+            # ---- the fresh object
+            if (st, r.split(":")[0] if st != "ok" else None) != (st2, r2.split(":")[0] if st2 != "ok" else None):
+                differ.append(f"{tag}: {'returned' if st == 'ok' else 'raised ' + r} on the long-lived object, "
+                              f"{'returned' if st2 == 'ok' else 'raised ' + r2} on a fresh object with the same u, w, max_hye_size, seed")
+            else:
+                names = list(SNAP_ATTRS) + ["u", "w", "u_prior", "w_prior"]
+                if st != "ok":      # `trained` / `training_iter` of an earlier call survive a call that raises
+                    names = [a for a in names if a not in ("trained", "training_iter")]
+                changed = snap_diff(post, ref_post, names)
+                if changed:
+                    differ.append(f"{tag}: afterwards {changed} differ between the long-lived object "
+                                  f"{ {k: plain(post[k]) for k in changed} } and a fresh object with the same u, w, max_hye_size, seed "
+                                  f"{ {k: plain(ref_post[k]) for k in changed} } (history: {[show_step(s) for s in case['steps'][:idx]]})")
+            complaint = entry_untouched(live)
+            if complaint:
+                bad.append(f"{tag}: afterwards pool hypergraph {j}: {complaint}")
+            if not both_set and st == "ok":
+                inferred_something = True
+            last_fit_entry = j
+            ctx.count("session_fits")
+            if both_set:
+                ctx.count("session_fits_with_nothing_left_to_infer")
+            # ---- the Lean object model
+            if use_model and not (bad or differ):
+                u0 = w0 = None
+                feasible = True
+                if not both_set:
+                    def draws():
+                        pr = fresh_object(pre, seed)
+                        if pr.w is None:
+                            pr._init_w()
+                        if pr.u is None:
+                            pr._init_u(live["N"])
+                        return farr(pr.u), farr(pr.w)
+                    std, dr = guarded(draws)
+                    small = len(live["edges"]) <= 4 and N <= 4 and not (pre["u"] is None and pre["w"] is None)
+                    upto = ((3 if (len(live["edges"]) <= 3 and pre["u"] is not None) else 2) if small else 1)
+                    if std != "ok" or not (np.all(np.isfinite(dr[0])) and np.all(np.isfinite(dr[1]))):
+                        feasible = False
+                    elif st == "ok" and not (tol_eff in (None, 0.0) and n <= upto):
+                        feasible = False       # exact rationals explode / float-vs-exact decisions of the stopping rule
+                    else:
+                        u0, w0 = dr
+                if feasible:
+                    Dpost = post["max_hye_size"] if isinstance(post["max_hye_size"], int) else Dtrue
+                    sqrtC = math.sqrt(sum(2.0 / (d * (d - 1)) for d in range(2, Dpost + 1)))
+                    ru = prior_matrix(pre["u_prior"] if isinstance(pre["u_prior"], float) else pre["u_prior"].tolist(),
+                                      live["N"] if pre["u"] is None else pre["u"].shape[0], K)
+                    rw = prior_matrix(pre["w_prior"] if isinstance(pre["w_prior"], float) else pre["w_prior"].tolist(), K, K)
+                    lines = ["data " + hgxv.enc_lists(live["cols"]) + " " + hgxv.enc_list([F(x) for x in live["hw"]]),
+                             "ofit %s %s %s %s %s %d %s %d" % ("-" if pre["u"] is not None else enc_mat(u0.tolist()),
+                                                              "-" if pre["w"] is not None else enc_mat(w0.tolist()),
+                                                              enc_mat(ru), enc_mat(rw), hgxv.enc_num(float(sqrtC)), n,
+                                                              "none" if tol_eff is None else hgxv.enc_num(float(tol_eff)), ev_eff)]
+                    compare(ctx, drv, {**case, "at": where}, lines, [("ok", None), ("ofit", (st == "ok", post))])
+                    ctx.count("session_fits_replayed_by_model")
+                else:
+                    compare(ctx, drv, {**case, "at": where},
+                            ["onew %s %s %d" % (enc_opt(post["u"]), enc_opt(post["w"]), -1 if post["max_hye_size"] is None else post["max_hye_size"])],
+                            [("ok", None)])
+                    ctx.count("session_fits_adopted_by_model_not_replayed")
+            continue
+        # ================================================================================ writes by the caller
+        applied = False
+        if op == "write":            # in place, into the array the caller handed in (or into the attribute when the object made it)
+            _, name, i, a, val = step
+            arr = getattr(m, name, None)
+            tgt = hand[name] if hand.get(name) is not None else arr
+            if isinstance(tgt, np.ndarray) and tgt.ndim == 2 and i < tgt.shape[0] and a < tgt.shape[1]:
+                v = float(F(val))
+                cells = [(i, a)] + ([(a, i)] if name in ("w", "w_prior") else [])
+                for c in cells:
+                    tgt[c] = v
+                    if name in supplied and supplied[name] is not None:
+                        supplied[name][c] = v
+                applied = True
+        elif op == "rebind":         # obj.u = new array / obj.w = new array
+            _, name, M = step
+            new = mk(M)
+            cur = getattr(m, name, None)
+            if cur is not None and np.shape(cur) == new.shape:
+                setattr(m, name, new)
+                hand[name] = new
+                supplied[name] = new.copy()
+                applied = True
+        elif op == "edit":           # replace one hyperedge of a pool hypergraph in place (same number of hyperedges)
+            _, j, k, new_edge, new_weight = step
+            live = pool[j]
+            new_edge = tuple(new_edge)
+            if k < len(live["edges"]) and new_edge not in live["edges"]:
+                L = live["labels"]
+                old = live["edges"][k]
+
+                def edit():
+                    live["h"].remove_edge(tuple(L[i] for i in old))
+                    if live["weights"] is None:
+                        live["h"].add_edge(tuple(L[i] for i in new_edge))
+                    else:
+                        live["h"].add_edge(tuple(L[i] for i in new_edge), weight=new_weight)
+                st, r = guarded(edit)
+                if st != "ok":
+                    bad.append(f"{where}: editing pool hypergraph {j} raised {r}")
+                    break
+                live["edges"][k] = new_edge
+                if live["weights"] is not None:
+                    live["weights"][k] = new_weight
+                complaint = refresh_entry(live)
+                if complaint:
+                    bad.append(f"{where}: pool hypergraph {j}: {complaint}")
+                applied = True
+        else:
+            raise ValueError("unknown session step")
+        if not applied:
+            ctx.count("session_steps_skipped")
+            continue
+        ctx.count("session_%s_steps" % op)
+        if use_model and op in ("write", "rebind") and step[1] in ("u", "w"):
+            now = snapshot(m)
+            compare(ctx, drv, {**case, "at": where}, ["oset %s %s" % (enc_opt(now["u"]), enc_opt(now["w"]))], [("ok", None)])
+    # ---- at the end: the model's object against the implementation's
+    if use_model and not (bad or differ):
+        fin = snapshot(m)
+        compare(ctx, drv, {**case, "at": "end of the session"}, ["ostate"], [("ostate", fin)])
+    ctx.count("sessions")
+    done(inferred_something and foreign_query_after_fit)
+
+
+def gen_pool_edges(rng, N, E, D, forbid=()):
+    """exactly E distinct hyperedges of size 2..D on N nodes (E is small enough), not the edge set `forbid`"""
+    for _ in range(50):
+        seen, edges = set(), []
+        while len(edges) < E:
+            d = max(2, min(rng.choice([2, 2, 3, 3, 4, 5, 6]), D, N))
+            e = tuple(sorted(rng.sample(range(N), d)))
+            if e not in seen:
+                seen.add(e)
+                edges.append(e)
+        if set(edges) != set(forbid):
+            return edges
+    return edges
+
+
+def gen_weights(rng, E):
+    mode = rng.choice(["unweighted", "int", "quarter"])
+    if mode == "unweighted":
+        return None
+    return [rng.randint(1, 5) if mode == "int" else rng.randint(1, 12) / 4 for _ in range(E)]
+
+
+def gen_session(rng):
+    N = rng.choice([3, 4, 4, 5, 5, 6])
+    K = rng.randint(1, 3)
+    assort = rng.random() < 0.5
+    small = rng.random() < 0.45           # sessions whose first fit the exact model can replay
+    if small:
+        N = rng.choice([3, 4, 4])
+    which = rng.choice(["u", "u", "u", "w", "none", "both"])
+    u = w = None
+    if which in ("u", "both"):
+        u = [[Fraction(rng.randint(1, 16), 8) for _ in range(K)] for _ in range(N)]
+        if K >= 2 and rng.random() < 0.1:
+            u = single_holder(rng, u, N, K)
+    if which in ("w", "both"):
+        w = gen_w(rng, K, assort)
+        for a in range(K):
+            for b in range(K):
+                if (a == b or not assort) and w[a][b] == 0:
+                    w[a][b] = w[b][a] = Fraction(1, 2)
+    w_prior = rng.choice([0.0, 1.0, 5.0])
+    u_prior = rng.choice([0.0, 0.0, 1.0])
+    if rng.random() < 0.2:
+        w_prior = [[Fraction(rng.randint(1, 8), 4) for _ in range(K)] for _ in range(K)]
+        for a in range(K):
+            for b in range(a):
+                w_prior[a][b] = w_prior[b][a]
+    if rng.random() < 0.2:
+        u_prior = [[Fraction(rng.randint(1, 8), 4) for _ in range(K)] for _ in range(N)]
+    # ---- the pool
+    n_possible = sum(math.comb(N, d) for d in range(2, N + 1))
+    E0 = rng.randint(2, min(3 if small else 6, n_possible - 1))
+    E2 = rng.choice([e for e in range(1, min(7, n_possible)) if e != E0])
+    Dcap = rng.randint(2, N)
+    ed0 = gen_pool_edges(rng, N, E0, Dcap)
+    ed1 = gen_pool_edges(rng, N, E0, N, forbid=ed0)
+    ed2 = gen_pool_edges(rng, N, E2, N)
+    pool = [{"N": N, "edges": ed0, "weights": gen_weights(rng, E0)},
+            {"N": N, "edges": ed1, "weights": gen_weights(rng, E0)},
+            {"N": N, "edges": ed2, "weights": gen_weights(rng, E2)}]
+    if rng.random() < 0.5:      # the content of H0 in another object, other weights, another history
+        pool.append({"N": N, "edges": list(ed0), "weights": gen_weights(rng, E0)})
+    other_N = None
+    if rng.random() < 0.6:      # the same number of hyperedges on another number of nodes
+        N2 = N + 1 if (N == 3 or rng.random() < 0.5) else N - 1
+        other_N = len(pool)
+        pool.append({"N": N2, "edges": gen_pool_edges(rng, N2, min(E0, sum(math.comb(N2, d) for d in range(2, N2 + 1)) - 1), N2),
+                     "weights": gen_weights(rng, E0)})
+        pool[-1]["weights"] = None if pool[-1]["weights"] is None else pool[-1]["weights"][:len(pool[-1]["edges"])]
+    for ent in pool:
+        ent["hist"] = gen_history(rng, ent["N"], ent["edges"])
+    same_N = [j for j in range(len(pool)) if pool[j]["N"] == N]
+    sizes = [max(len(e) for e in pool[j]["edges"]) for j in same_N]
+    r = rng.random()
+    if r < 0.45:
+        mhs = None
+    elif r < 0.8 or min(sizes) == max(sizes):
+        mhs = rng.randint(max(sizes), N)
+    else:
+        mhs = rng.randint(min(sizes), max(sizes) - 1)      # covers some pool entries only
+    # ---- the steps
+    cur_edges = [list(ent["edges"]) for ent in pool]
+    steps = []
+    state = {"u": u is not None, "w": w is not None, "last_q": None}
+
+    def q(j=None):
+        steps.append(["q", rng.randrange(len(pool)) if j is None else j])
+        state["last_q"] = steps[-1][1]
+
+    def fit_step(first):
+        if first:
+            j = rng.choice([0, 0, 1, 2] if mhs is None else same_N)
+            n = rng.choice([1, 1, 2, 2, 3, 3] if small else [1, 2, 3, 4, 5, 8, 12])
+            tol = rng.choice(["default", "default", None, 0.0] if (small and rng.random() < 0.8) else ["default", None, 0.0, 0.5, 100.0, 1e-3, 1e-6])
+        else:
+            j = rng.randrange(len(pool))
+            n = rng.choice([1, 2, 3, 5, 8])
+            tol = rng.choice(["default", None, 0.0, 0.5, 100.0, 1e-3])
+        every = rng.choice(["default", 1, 1, 2, 3, 5]) if rng.random() < 0.94 else 0
+        steps.append(["fit", j, n, tol, every])
+        state["u"] = state["w"] = True
+        return j
+
+    def write_step():
+        cands = [nm for nm in ("u", "w") if state[nm]]
+        if isinstance(u_prior, list):
+            cands.append("u_prior")
+        if isinstance(w_prior, list):
+            cands.append("w_prior")
+        if not cands:
+            return False
+        nm = rng.choice(cands)
+        if nm in ("u", "u_prior"):
+            steps.append(["write", nm, rng.randrange(N), rng.randrange(K), Fraction(rng.randint(1, 16), 8)])
+        else:
+            a = rng.randrange(K)
+            b = a if (assort and nm == "w") else rng.randrange(K)
+            steps.append(["write", nm, a, b, Fraction(rng.randint(1, 12), 8 if nm == "w" else 4)])
+        return True
+
+    def rebind_step():
+        cands = [nm for nm in ("u", "w") if state[nm]]
+        if not cands:
+            return False
+        nm = rng.choice(cands)
+        if nm == "u":
+            M = [[Fraction(rng.randint(1, 16), 8) for _ in range(K)] for _ in range(N)]
+        else:
+            M = gen_w(rng, K, assort)
+        steps.append(["rebind", nm, M])
+        return True
+
+    def fit_pair():
+        """a fit that is left through `break` (nothing moves any more: every distance is 0 < tolerance), queries, then a fit that
+        cannot reach a tolerance: what the first one set (`tolerance_reached`, `training_iter`, `tolerance`) must not survive"""
+        steps.append(["fit", rng.randrange(len(pool)), rng.choice([3, 5, 8]), rng.choice([0.5, 100.0, 1e-3]), rng.choice([1, 1, 2])])
+        q()
+        steps.append(["fit", rng.randrange(len(pool)), rng.choice([1, 2, 3]), rng.choice(["default", None, 0.0]), rng.choice(["default", 1, 3])])
+        state["u"] = state["w"] = True
+
+    def edit_step():
+        # mostly the hypergraph that was the argument of the last query block (whatever a query kept about it is stale now)
+        j = state["last_q"] if (state.get("last_q") is not None and rng.random() < 0.6) else rng.randrange(len(pool))
+        state["edited"] = j
+        Nj = pool[j]["N"]
+        k = rng.randrange(len(cur_edges[j]))
+        for _ in range(20):
+            e = tuple(sorted(rng.sample(range(Nj), rng.randint(2, Nj))))
+            if e not in [tuple(x) for x in cur_edges[j]]:
+                cur_edges[j][k] = e
+                steps.append(["edit", j, k, list(e), rng.randint(1, 5)])
+                return True
+        return False
+
+    # before the first fit: queries (closed forms / "not initialized"), writes into the arrays that were handed in
+    if rng.random() < 0.7:
+        q()
+    if rng.random() < 0.35 and write_step():
+        q()
+    if rng.random() < 0.15 and rebind_step():
+        q()
+    j0 = fit_step(True)
+    q(j0)
+    twin = {0: 1, 1: 0}.get(j0, 0)
+    for j in [twin, 2 if j0 != 2 else 1] + ([other_N] if other_N is not None else []):
+        q(j)
+    if len(pool) > 3 and pool[3]["N"] == N and rng.random() < 0.5:
+        q(3)
+    for _ in range(rng.randint(2, 5)):
+        kind = rng.choice(["fit", "fit", "fitpair", "write", "write", "rebind", "edit", "edit"])
+        ok = True
+        if kind == "fit":
+            fit_step(False)
+        elif kind == "fitpair":
+            fit_pair()
+        elif kind == "write":
+            ok = write_step()
+        elif kind == "rebind":
+            ok = rebind_step()
+        else:
+            ok = edit_step()
+        if ok:
+            q(state["edited"] if (kind == "edit" and rng.random() < 0.7) else None)
+            if rng.random() < 0.4:
+                q()
+    sub = rng.sample(range(2, N + 1), rng.randint(1, N - 1))
+    return {"kind": "session", "N": N, "K": K, "assortative": assort, "u": u, "w": w, "u_prior": u_prior, "w_prior": w_prior,
+            "max_hye_size": mhs, "seed": rng.randint(0, 10 ** 6), "pass_K": rng.random() < 0.7, "pass_assortative": rng.random() < 0.7,
+            "pool": pool, "steps": steps, "d_single": rng.randint(2, N), "d_subset": sub}
+
+
+# -------------------------------------------------------------------------------------------------
 # D28: a fixed configuration on which the UNPENALISED likelihood decreases although the code is a correct MAP step
 
 # found by search; the same numbers are the Lean witness `C15_plain_likelihood_can_decrease`:
@@ -1275,8 +2158,9 @@ def safely(ctx, check, drv, case):
 def run(ctx):
     drv = ctx.driver() if ctx.model_available else None
     replay_known(ctx, drv)
-    n_closed, n_update, n_fit = ctx.scale(60, 3000), ctx.scale(80, 5000), ctx.scale(45, 1800)
-    streams = [(gen_closed, check_closed, n_closed), (gen_update, check_update, n_update), (gen_fit, check_fit, n_fit)]
+    n_closed, n_update, n_fit, n_session = ctx.scale(60, 2600), ctx.scale(80, 4200), ctx.scale(45, 1600), ctx.scale(32, 700)
+    streams = [(gen_closed, check_closed, n_closed), (gen_update, check_update, n_update), (gen_fit, check_fit, n_fit),
+               (gen_session, check_session, n_session)]
     # interleave so that a short time budget still covers the three streams
     todo = []
     for g, c, n in streams:
@@ -1295,6 +2179,7 @@ def replay(ctx, case):
     case = dict(case)
     case.pop("line", None)
     case.pop("n_iter", None)
+    case.pop("at", None)
     kind = case.get("kind")
     if kind == "closed":
         safely(ctx, check_closed, drv, case)
@@ -1302,5 +2187,7 @@ def replay(ctx, case):
         safely(ctx, check_update, drv, case)
     elif kind == "fit":
         safely(ctx, check_fit, drv, case)
+    elif kind == "session":
+        safely(ctx, check_session, drv, case)
     else:
         raise ValueError("unknown case kind")
